@@ -33,7 +33,9 @@ NAN, INF = float("nan"), float("inf")
 def clean(x):
     """values handed to the library are plain Python data (no harness objects)"""
     if isinstance(x, Other):
-        return b"obj"
+        # collection-like objects that are not list / tuple / dict travel as Other(tag) (s_fields.EXOTIC); only the ones
+        # copy.deepcopy can carry, since operations hand their values over through a deep copy
+        return x if any(x.tag == e.tag for e in SF.EXOTIC_COPYABLE) else b"obj"
     if isinstance(x, list):
         return [clean(i) for i in x]
     if isinstance(x, tuple):
@@ -41,6 +43,21 @@ def clean(x):
     if isinstance(x, dict):
         return {clean(k): clean(v) for k, v in x.items()}
     return x
+
+
+def show(v):
+    """printable form of a converted value (collection-like objects that are not list / tuple / dict by their type name)"""
+    if isinstance(v, Other):
+        return "<%s>" % SF.EXOTIC.get(v.tag, ("object",))[0]
+    if isinstance(v, Proxy):
+        return show(v.items)
+    if isinstance(v, list):
+        return [show(i) for i in v]
+    if isinstance(v, tuple):
+        return tuple(show(i) for i in v)
+    if isinstance(v, dict):
+        return {show(k): show(x) for k, x in v.items()}
+    return v
 
 
 def unproxy(v):
@@ -108,7 +125,7 @@ def valid_default(rng, fd):
             v = unproxy(detached_validate(fd, x))
         except Exception:  # noqa
             continue
-        if v is None or isinstance(v, Other) or isinstance(v, tuple):
+        if v is None or isinstance(v, Other) or isinstance(v, tuple) or "other" in repr(canon(v)):
             continue
         if isinstance(v, (list, dict)) and len(v) == 0:
             continue
@@ -282,7 +299,7 @@ def matrix_cases():
               ("blob", L(B64)),
               ("tags", L({"k": "list", "req": False, "item": SF.fstr(strip=True, case="lower", mn=1)}, ["x"])),
               ("nums", L({"k": "list", "req": True, "item": SF.fnum("int", False, 0, 10)}, [1])),
-              ("env", L({"k": "dict", "req": False, "kf": SF.fstr(case="lower"), "vf": SF.fnum("int", False, 0, 10)})),
+              ("env", L({"k": "dict", "req": False, "kf": SF.fstr(case="lower"), "vf": SF.fnum("int", False, 0, 10)}, {"a": 1})),
               ("raw", L({"k": "list", "req": False, "item": None})),
               ("opts", L({"k": "dict", "req": True}, {"k": 1})),
               ("mode", L({"k": "loglevel", "req": False}, "info")),
@@ -329,6 +346,15 @@ def matrix_cases():
     sets(R, "rxd", [{"k": "v"}, {"xk": "v"}, {"k": "vx"}, {"k": "v\n"}, {"k1": "vv", "k2": "xv"}, {"k": "xxxv"}, {"k": None}, {}])
     sets(R, "rip", ["1.2.3.4", "21.2.3.4", "2.1.3.4", "11.1.1.1", "1.1"])
     sets(R, "rlvl", ["info", "INFO", " Error ", "debug", "xinfo", "information"])
+    XO = list(SF.EXOTIC_COPYABLE)      # set, frozenset, range, bytearray, deque, array, a user sequence class, UserDict, ChainMap
+    sets(R, "raw", XO + [[SF.Other(1), 1]])
+    sets(R, "nums", XO)
+    sets(R, "tags", XO)
+    sets(R, "env", XO)
+    sets(R, "opts", XO)
+    sets(R, "c", XO[:4])
+    sets(R, "rxs", XO[:3])
+    sets(SUB, "keys", XO[:3] + XO[7:9])
     sets(R, "nokey", [1])
     sets(R, "sub", [{"net": "10.0.0.0/8", "lvl": 1}, {"net": "10.0.0.0/7", "lvl": 1}, {"net": "10.1.2.0/24", "lvl": 5},
                     {"net": "10.1.2.0/25", "lvl": 5}, {"net": "10.1.2.3", "lvl": 2}, {"lvl": 0}, {"lvl": 6}, {"lvl": "3", "pt": "22"},
@@ -575,6 +601,7 @@ class Built:
         self.validator_log = []
         self.reg = [[None]]          # field ids start at 1
         self.leaf_of = {}            # id(field object) -> leaf node
+        self.defaults = {}           # id(field object) -> (field, declared default object, deep copy of it)
 
         def mk_validator(n):
             key, bad = self.vt[n]
@@ -596,6 +623,7 @@ class Built:
             f._default = d
             f.sensitive = nd["sensitive"]
             self.leaf_of[id(f)] = nd
+            self.defaults[id(f)] = (f, d, copy.deepcopy(d) if not callable(d) else None)
             return f
 
         def mk_schema(fields, dyn, vals):
@@ -741,13 +769,79 @@ def revalidate(b, root, fields, bad):
                 bad.append("held value of %s re-validates to a different value: %r -> %r" % (CO.pjoin(path, k), v, v2))
 
 
+BAD_ITEMS = [{"__bad__": 1}, "bad item!", -10 ** 9, b"\xff", 1.5, [], None]
+
+
+def check_defaults(b, bad):
+    """the default objects the schema declares are never touched: same object, same content"""
+    for f, d, dcopy in b.defaults.values():
+        if f._default is not d:
+            bad.append("the declared default object of field %s was replaced" % f._key)
+        elif dcopy is not None and canon(SF.conv(d, b.reg)) != canon(SF.conv(dcopy, b.reg)):
+            bad.append("the declared default of field %s changed from %r to %r" % (f._key, dcopy, d))
+
+
+def check_reset(b, cfg, key, tpath, bad):
+    """after reset_value: a typed list / dict field holds a typed proxy of THIS configuration and field (not the schema's
+    default object, not a raw container), and an unacceptable in-place insertion is still rejected"""
+    from cincoconfig.fields import ListProxy, DictProxy
+    fld = cfg._schema._fields.get(key)
+    nd = b.leaf_of.get(id(fld))
+    if nd is None:
+        return
+    fd = nd["fd"]
+    v = cfg._data.get(key)
+    where = CO.pjoin(tpath, key)
+    _, d, _ = b.defaults[id(fld)]
+    # (ListField / DictField copy their default; a bare Field / AnyField hands out its default object itself: not C12's subject)
+    if fd["k"] in ("list", "dict") and isinstance(d, (list, dict)) and v is d:
+        bad.append("after reset %s IS the schema's default object: mutating it changes the declared default" % where)
+    if v is None or not (SF.typed_list(fd) or SF.typed_dict(fd)):
+        return
+    if SF.typed_list(fd):
+        if not (type(v) is ListProxy and v.list_field is fld and v.cfg is cfg):
+            bad.append("after reset %s holds %s %r, not a typed list of this configuration and field" % (where, type(v).__name__, v))
+        item = fd["item"]
+        for x in BAD_ITEMS:
+            try:
+                detached_validate(item, x)
+            except Exception:  # noqa
+                before = list(v)
+                try:
+                    v.append(x)
+                except Exception:  # noqa
+                    pass
+                if list(v) != before:
+                    bad.append("after reset an unacceptable item %r can be appended to %s in place: %r" % (x, where, list(v)))
+                    del v[len(before):]
+                break
+    else:
+        if not (type(v) is DictProxy and v.dict_field is fld and v.cfg is cfg):
+            bad.append("after reset %s holds %s %r, not a typed dict of this configuration and field" % (where, type(v).__name__, v))
+        vf = fd.get("vf")
+        if vf is not None:
+            for x in BAD_ITEMS:
+                try:
+                    detached_validate(vf, x)
+                except Exception:  # noqa
+                    before = dict(v)
+                    try:
+                        v["__probe__"] = x
+                    except Exception:  # noqa
+                        pass
+                    if dict(v) != before:
+                        bad.append("after reset an unacceptable value %r can be stored in %s in place" % (x, where))
+                        dict.pop(v, "__probe__", None)
+                    break
+
+
 def impl(c):
     b = Built(c)
     c["_built"] = b
     keep = []
     c["_reval"] = reval = []
     try:
-        root = b.schema(**copy.deepcopy(c["kw"]))
+        root = b.schema(**SF.mk(c["kw"]))
     except Exception as e:  # noqa
         c["_ctor_exc"] = e
         c["_obs"] = ((("err", norm_err(c, CO.errkind(e)))),)
@@ -769,7 +863,11 @@ def impl(c):
         tpath = None
         if target is not None:
             tpath = [p for p, obj in CO.walk_cfgs(root) if obj is target][0]
-        raw = CO.apply_op(root, ps, o)
+        raw = CO.apply_op(root, ps, tuple(SF.mk(e) if isinstance(e, (list, tuple, dict, Other)) else e for e in o))
+        if c.get("prop") in ("C01", "C12"):
+            if o[0] == "reset" and raw == "ok" and target is not None:
+                check_reset(b, target, o[1], tpath, reval)
+            check_defaults(b, reval)
         if isinstance(raw, tuple) and raw[0] == "err":
             out = ("err", norm_err(c, raw[1]))
         elif isinstance(raw, tuple) and raw[0] == "errs":
@@ -808,7 +906,7 @@ def check_wf(fields, snap, path, bad):
             if k in defaults or v is None:
                 continue
             for m in SF.declared(nd["fd"], v):
-                bad.append("%s holds %r: %s" % (CO.pjoin(path, k), unproxy(v), m))
+                bad.append("%s holds %r: %s" % (CO.pjoin(path, k), show(v), m))
         elif nd["t"] == "sub":
             if not (isinstance(v, tuple) and len(v) == 3):
                 bad.append("%s is not a configuration" % CO.pjoin(path, k))
@@ -842,7 +940,7 @@ def fresh_snapshot(nd):
 
 def oracle_for(prop, c, obs):
     bad = []
-    if prop == "C01":
+    if prop in ("C01", "C12"):
         bad += c.get("_reval", [])
     if obs[0] != "ok":
         if prop == "C15":
@@ -901,6 +999,11 @@ def oracle_for(prop, c, obs):
                     else:
                         if cu(got) != cu(exp):
                             bad.append("reading %s after assigning %r gives %r, normal form is %r" % (o[1], o[2], got, exp))
+            if out == "ok" and o[0] == "set":
+                nd = dict(CO.node_at(fields, tsteps)).get(o[1])
+                if nd is not None and nd["t"] == "leaf" and SF.expect_accept(nd["fd"], o[2]) is False:
+                    bad.append("assignment of %r to %s accepted although it violates the declared constraints (stored %r)"
+                               % (show(o[2]), o[1], show(CO.get_cfg_snap(after, tsteps)[0].get(o[1]))))
             if is_err and o[0] == "set":
                 nd = dict(CO.node_at(fields, tsteps)).get(o[1])
                 if nd is not None and nd["t"] == "leaf" and SF.expect_accept(nd["fd"], o[2]) is True:
